@@ -1,0 +1,191 @@
+//! Plain-data wrappers around crate-private pure functions and codecs.
+
+use crate::http_datagram_codec::{DecodeResult, Decoder as _, Encoder as _};
+use crate::{
+    downstream, forwarder, http_icmp_codec, http_udp_codec, icmp_utils, log_utils, net_utils,
+};
+use bytes::Bytes;
+use std::net::{IpAddr, SocketAddr};
+
+pub fn is_global_ip(ip: &IpAddr) -> bool {
+    net_utils::is_global_ip(ip)
+}
+
+pub fn rfc1071_checksum(bytes: &[u8]) -> u16 {
+    net_utils::rfc1071_checksum(bytes)
+}
+
+pub fn skip_ipv4_header(packet: Bytes) -> Option<(i32, Bytes)> {
+    net_utils::skip_ipv4_header(packet)
+}
+
+pub fn skip_ipv6_header(packet: Bytes) -> Option<(i32, Bytes)> {
+    net_utils::skip_ipv6_header(packet)
+}
+
+pub fn sockaddr_roundtrip(addr: &SocketAddr) -> SocketAddr {
+    let (storage, _len) = net_utils::socket_addr_to_libc(addr);
+    net_utils::libc_to_socket_addr(&storage)
+}
+
+pub fn scrub_sni(sni: String) -> String {
+    net_utils::scrub_sni(sni)
+}
+
+/// A datagram decoded from the client-to-endpoint UDP multiplexer stream
+#[derive(Debug, Clone, PartialEq, Eq)]
+pub struct UdpIn {
+    pub source: SocketAddr,
+    pub destination: SocketAddr,
+    pub app_name: Option<String>,
+    pub payload: Bytes,
+}
+
+pub struct UdpDecoder(http_udp_codec::Decoder);
+
+impl Default for UdpDecoder {
+    fn default() -> Self {
+        Self::new()
+    }
+}
+
+impl UdpDecoder {
+    pub fn new() -> Self {
+        Self(http_udp_codec::Decoder::new(log_utils::IdChain::empty()))
+    }
+
+    /// `None` = the decoder wants more data (the chunk is fully consumed),
+    /// `Some((datagram, tail))` = a datagram is complete, `tail` must be offered again.
+    pub fn decode_chunk(&mut self, data: Bytes) -> Option<(UdpIn, Bytes)> {
+        match self.0.decode_chunk(data) {
+            DecodeResult::WantMore => None,
+            DecodeResult::Complete(d, tail) => Some((
+                UdpIn {
+                    source: d.meta.source,
+                    destination: d.meta.destination,
+                    app_name: d.meta.app_name,
+                    payload: d.payload,
+                },
+                tail,
+            )),
+        }
+    }
+}
+
+pub fn udp_encode(source: SocketAddr, destination: SocketAddr, payload: Bytes) -> Option<Bytes> {
+    http_udp_codec::Encoder::default().encode_packet(&forwarder::UdpDatagram {
+        meta: forwarder::UdpDatagramMeta {
+            source,
+            destination,
+        },
+        payload,
+    })
+}
+
+/// An echo request decoded from the client-to-endpoint ICMP multiplexer stream
+#[derive(Debug, Clone, PartialEq, Eq)]
+pub struct IcmpIn {
+    pub peer: IpAddr,
+    pub is_v6_message: bool,
+    pub identifier: u16,
+    pub sequence_number: u16,
+    pub ttl: u8,
+    pub data_len: usize,
+    /// The wire image of the echo request the endpoint would send
+    pub serialized: Bytes,
+}
+
+fn icmp_in_view(d: &downstream::IcmpDatagram) -> IcmpIn {
+    let echo = d.message.to_echo().expect("decoder yields echo requests only");
+    IcmpIn {
+        peer: d.meta.peer,
+        is_v6_message: matches!(d.message, icmp_utils::Message::V6(_)),
+        identifier: echo.identifier,
+        sequence_number: echo.sequence_number,
+        ttl: d.ttl,
+        data_len: echo.data.len(),
+        serialized: d.message.serialize(),
+    }
+}
+
+pub struct IcmpDecoder(http_icmp_codec::Decoder);
+
+impl Default for IcmpDecoder {
+    fn default() -> Self {
+        Self::new()
+    }
+}
+
+impl IcmpDecoder {
+    pub fn new() -> Self {
+        Self(http_icmp_codec::Decoder::new())
+    }
+
+    pub fn decode_chunk(&mut self, data: Bytes) -> Option<(IcmpIn, Bytes)> {
+        match self.0.decode_chunk(data) {
+            DecodeResult::WantMore => None,
+            DecodeResult::Complete(d, tail) => Some((icmp_in_view(&d), tail)),
+        }
+    }
+}
+
+/// Wire image of an echo request with the given fields
+pub fn echo_serialize(v6: bool, identifier: u16, sequence_number: u16, data: Bytes) -> Bytes {
+    let echo = icmp_utils::Echo {
+        code: 0,
+        identifier,
+        sequence_number,
+        data,
+    };
+    if v6 {
+        icmp_utils::Message::V6(icmp_utils::v6::Message::EchoRequest(echo)).serialize()
+    } else {
+        icmp_utils::Message::V4(icmp_utils::v4::Message::Echo(echo)).serialize()
+    }
+}
+
+/// What the endpoint makes of a raw ICMP/ICMPv6 message (IP header already stripped)
+#[derive(Debug, Clone, PartialEq, Eq)]
+pub struct IcmpView {
+    pub type_id: u8,
+    pub code: u8,
+    pub len: usize,
+    /// (identifier, sequence number, data) of the echo request this message responds to
+    pub responded: Option<(u16, u16, Bytes)>,
+}
+
+fn icmp_deserialize_message(v6: bool, packet: Bytes) -> Result<icmp_utils::Message, String> {
+    if v6 {
+        icmp_utils::v6::Message::deserialize(packet)
+            .map(icmp_utils::Message::from)
+            .map_err(|e| format!("{:?}", e))
+    } else {
+        icmp_utils::v4::Message::deserialize(packet)
+            .map(icmp_utils::Message::from)
+            .map_err(|e| format!("{:?}", e))
+    }
+}
+
+pub fn icmp_deserialize(v6: bool, packet: Bytes) -> Result<IcmpView, String> {
+    let m = icmp_deserialize_message(v6, packet)?;
+    Ok(IcmpView {
+        type_id: m.type_id(),
+        code: m.code(),
+        len: m.len(),
+        responded: m
+            .responded_echo_request()
+            .map(|e| (e.identifier, e.sequence_number, e.data)),
+    })
+}
+
+/// Deserialize a raw ICMP message and encode it as a reply record for the client.
+/// `Ok(None)` = the message is not reported to a client.
+pub fn icmp_encode_reply(v6: bool, peer: IpAddr, packet: Bytes) -> Result<Option<Bytes>, String> {
+    let message = icmp_deserialize_message(v6, packet)?;
+    Ok(
+        http_icmp_codec::Encoder::default().encode_packet(&forwarder::IcmpDatagram {
+            meta: forwarder::IcmpDatagramMeta { peer },
+            message,
+        }),
+    )
+}
